@@ -61,6 +61,25 @@ def run_impl(case):
         def on_process_finished(self, process, outputs):
             self.finished.append(pg.from_py(outputs))
 
+        def __hash__(self):           # (pins the place in the listener set: after the failing ones below)
+            return 7
+
+    class Broken(plumpy.ProcessListener):
+        """other listeners of the same process that fail in every callback: what one listener does is nothing to the others"""
+
+        def __init__(self, h):
+            super().__init__()
+            self.h = h
+
+        def __hash__(self):
+            return self.h
+
+        def on_output_emitted(self, process, output_port, value, dynamic):
+            raise RuntimeError('broken listener')
+
+        def on_process_finished(self, process, outputs):
+            raise RuntimeError('broken listener')
+
     class P(processes.Process):
         @classmethod
         def define(cls, spec):
@@ -86,6 +105,8 @@ def run_impl(case):
     lis = Listener()
     try:
         p = P(loop=_loop())
+        for h in (1, 2, 3):
+            p.add_process_listener(Broken(h))
         p.add_process_listener(lis)
         p.execute()
     except BaseException as e:  # noqa
